@@ -446,6 +446,7 @@ func runPath(it *Interp, job *JobSpec, item workItem, sched *scheduler, res *Job
 	}
 	it.evalMemo = map[*Term]uint64{}
 	it.notes = map[string]Value{}
+	it.cborStore = map[*ByteObj]Value{}
 	it.opaqueLens = map[int32]bool{}
 	it.axiomSeen = map[*Term]bool{}
 	it.forkSites = map[string]int{}
